@@ -283,6 +283,7 @@ class SimTransport(asyncio.Transport):
         self.server_closed = False  # the broker closed (client sees EOF)
         self.blackholed = False  # broker stopped reading (lose_reply)
         self.lost_traced = False  # a conn_lost event was written for this connection
+        self.eof_delivered = False  # the client has read the EOF of a broker-side close
         self._lost_called = False
         self._buf = bytearray()
         # broker side
@@ -380,25 +381,42 @@ class SimTransport(asyncio.Transport):
         self.proto.connection_lost(exc)
 
     def deliver(self):
-        """Timer callback: hand the oldest reply on the wire to the client."""
-        data = self.outbox.popleft()
-        if self.closing:
+        """Timer callback: hand the oldest item on the wire (a reply, or the EOF marker of a
+        broker-side close) to the client.  One callback is scheduled per item and each pops the
+        FIFO head, so the order on the wire is kept even when deadlines are equal (the heap
+        order of equal deadlines is arbitrary)."""
+        if not self.outbox:
             return
-        self.proto.data_received(data)
+        data = self.outbox.popleft()
+        if self.closing or self.eof_delivered:
+            return
+        if data is None:
+            self._eof()
+        else:
+            self.proto.data_received(data)
 
     def server_close(self, by, delay=0.0):
-        """The broker closes the connection: the client reads EOF after ``delay``."""
+        """The broker closes the connection: the client reads EOF after ``delay`` - but never
+        before the replies that were sent earlier (TCP delivers data before FIN)."""
         if self.server_closed or self.closing:
             return
         self.server_closed = True
         self.inbox.clear()
         self.arriving.clear()
-        self.loop.cluster._conn_closed(self, by)
-        self.loop.sim_call_later(delay, self._eof)
+        loop = self.loop
+        loop.cluster._conn_closed(self, by)
+        t = loop._vt + delay
+        if t < self.last_deliver:
+            t = self.last_deliver
+        self.last_deliver = t
+        self.outbox.append(None)  # in-band EOF marker
+        loop.sim_call_at(t, self.deliver)
 
     def _eof(self):
-        if self.closing:
+        if self.closing or self.eof_delivered:
             return
+        self.eof_delivered = True
+        self.outbox.clear()  # nothing may follow an EOF
         keep_open = self.proto.eof_received()
         if not keep_open and not self.closing:
             self.closing = True
